@@ -1,7 +1,7 @@
 """The library's own stream sources driven directly: credits, ticks and cancellation chosen by the harness."""
 import asyncio
 
-KINDS = ['gen', 'agen', 'rx3', 'rx4']
+KINDS = ['gen', 'agen', 'rx3', 'rx4', 'rx3ag', 'rx4ag']
 
 
 def make_source(kind, count, flagged, failing, on_cancel=None, on_complete=None, pulls=None):
@@ -30,6 +30,26 @@ def make_source(kind, count, flagged, failing, on_cancel=None, on_complete=None,
             if failing:
                 raise RuntimeError('source failure')
         return StreamFromAsyncGenerator(agen, on_cancel=on_cancel, on_complete=on_complete)
+    if kind in ('rx3ag', 'rx4ag'):
+        # the documented back-pressure-aware source: an async generator behind observable_from_async_generator, handed to the library as
+        # from_observable_with_backpressure(...) - slow (the generator suspends before each element), so that credit can arrive while
+        # the elements of an earlier grant are still being produced
+        if kind == 'rx3ag':
+            from rsocket.rx_support.back_pressure_publisher import (from_observable_with_backpressure, observable_from_async_generator,
+                                                                   observable_to_publisher)
+        else:
+            from rsocket.reactivex.back_pressure_publisher import (from_observable_with_backpressure, observable_from_async_generator,
+                                                                  observable_to_publisher)
+
+        async def slow():
+            for k, (p, _) in enumerate(items):
+                await asyncio.sleep(0)
+                await asyncio.sleep(0)
+                pulls.append(k)
+                yield p
+            if failing:
+                raise RuntimeError('source failure')
+        return observable_to_publisher(from_observable_with_backpressure(lambda bp: observable_from_async_generator(slow(), bp)))
     if kind == 'rx3':
         import rx
         from rx import operators as ops
